@@ -340,7 +340,6 @@ class CallTracer:
         code = frame.f_code
         if (
             event not in SUPPORTED_EVENTS
-            or code.co_name == "trace_types"
             or self.should_trace
             and not self.should_trace(code)
         ):
